@@ -197,6 +197,14 @@ class Parser:
     # ---- Statements ----
 
     def _parse_statement(self) -> Optional[Node]:
+        """Parse a statement and record where it starts."""
+        start = self.current
+        node = self._parse_statement_inner()
+        if node is not None and node.loc is None:
+            node.loc = SourceLocation(start.line, start.column)
+        return node
+
+    def _parse_statement_inner(self) -> Optional[Node]:
         """Parse a statement."""
         if self._match(TokenType.SEMICOLON):
             return EmptyStatement()
